@@ -8,7 +8,7 @@ code) — `Model/AllocFail.lean` under the same allocation-failure schedule as t
 Ops: `failat k` / `failfrom k` / `failoff`; `nr_start h slot`, `nr_cancel h`, `nw_start h slot`, `nw_cancel h`,
 `na_start h slot`, `na_cancel h`, `nc_start h pattern timeo`, `nc_cancel h`, `nbr_init h slot`, `nbr_wait h len`,
 `nbr_cancel h`, `nbr_free h`, `nbw_init h slot`, `nbw_reserve h len`, `nbw_consume h len`, `nbw_write h len`,
-`nbw_free h`, `hq_start h pattern pathlen`, `hq_cancel h`, `end`.  `h` is the harness' handle of the object,
+`nbw_free h`, `hq_start h pattern pathlen`, `hqs_start h pattern pathlen hostlen` (https_request), `hq_cancel h`, `end`.  `h` is the harness' handle of the object,
 slot `i` is descriptor `64 + i`.  L1: status and `rf` = requests refused during the op.  L2: live library
 blocks, sizes of the requests made during the op (in order), descriptors with a reader / writer registered,
 number of immediate events and of timers, fill of the four pools.
@@ -218,6 +218,15 @@ def step (s : S) (toks : List String) : S × String :=
       -- "GET" " " path " HTTP/1.1\r\n" + "Host: x\r\n" + "Connection: close\r\n" + "\r\n"
       let headlen := 3 + 1 + (1 + pl.toNat!) + 11 + (4 + 1 + 4) + (10 + 5 + 4) + 2
       let (o, w') := httpRequest w (parsePattern pat) headlen (freshFd w)
+      ({ s with w := w', http := match o with | some c => (hh, c) :: s.http | none => s.http }, line o.isSome w w')
+  | ["hqs_start", h, pat, pl, hl] =>
+    -- the same through `https_request` with a host name of `hl` characters (`strdup` first)
+    match objOk h with
+    | none => (s, "skip")
+    | some hh =>
+      if (look s.http hh).isSome || pat.length > 8 || pl.toNat! > 256 || hl.toNat! > 256 then (s, "skip") else
+      let headlen := 3 + 1 + (1 + pl.toNat!) + 11 + (4 + 1 + 4) + (10 + 5 + 4) + 2
+      let (o, w') := httpsRequest w (parsePattern pat) headlen (freshFd w) hl.toNat!
       ({ s with w := w', http := match o with | some c => (hh, c) :: s.http | none => s.http }, line o.isSome w w')
   | _ => (s, "bad-op")
 
